@@ -34,6 +34,8 @@ def explore(chk):
             words = [sccgen.CMD["RDC"]] * (2 if doubled else 1)
             for k in range(nrows):
                 txt = " ".join("".join(xsub.choice(sccgen.SAFE_CHARS[:52]) for _ in range(xsub.randint(2, 6))) for _ in range(xsub.randint(1, 3)))
+                if xsub.random() < 0.3:
+                    txt = xsub.choice([" ", " - "]) + txt          # a transmitted blank used as a one-column indent
                 words += [sccgen.pac(r0 + k, 0)] * (2 if doubled else 1)
                 if k and xsub.random() < 0.7:
                     w_, ch_ = xsub.choice(ext_)
@@ -45,7 +47,26 @@ def explore(chk):
                     rows.append({"text": txt, "frame": frame, "words": 0})
             lines += [sccgen.timecode(frame, df) + "\t" + " ".join(words), ""]
             frame += len(words) + xsub.choice([30, 90])
-        progs.append({"mode": "paint", "text": "\n".join(lines) + "\n", "rows": rows, "df": df, "doubled": doubled, "offset": 0, "ru_once": False})
+        progs.append({"mode": "paint", "text": "\n".join(lines) + "\n", "rows": rows, "df": df, "doubled": doubled, "offset": 0, "ru_once": False,
+                      "exact_lines": [r_["text"].rstrip() for r_ in rows]})
+    # roll-up rows that are sent in two pieces (a second preamble for the same row further right): both pieces carry the row's times,
+    # also when the row is the last of the stream
+    for i in range(10 if chk.tier == "quick" else 200):
+        doubled = bool(i % 2); df = bool((i // 2) % 2)
+        lines = ["Scenarist_SCC V1.0", ""]; rows = []; frame = xsub.choice([30, 900])
+        nrows = xsub.randint(1, 3)
+        for k in range(nrows):
+            a_ = "".join(xsub.choice(sccgen.SAFE_CHARS[:52]) for _ in range(xsub.randint(2, 5)))
+            words = ([sccgen.CMD["RU2"]] * (2 if doubled else 1) if k == 0 or xsub.random() < 0.5 else [])
+            words += [sccgen.CMD["CR"]] * (2 if doubled else 1) + [sccgen.pac(15, 0)] * (2 if doubled else 1) + sccgen.chars_to_words(a_)
+            rows.append({"text": a_, "frame": frame, "words": 0})
+            if k == nrows - 1 or xsub.random() < 0.3:
+                b_ = "".join(xsub.choice(sccgen.SAFE_CHARS[:52]) for _ in range(xsub.randint(2, 5)))
+                words += [sccgen.pac(15, xsub.choice([16, 20, 24]))] * (2 if doubled else 1) + sccgen.chars_to_words(b_)
+                rows.append({"text": b_, "frame": frame, "words": 0, "same_cue": True})
+            lines += [sccgen.timecode(frame, df) + "\t" + " ".join(words), ""]
+            frame += len(words) + xsub.choice([30, 90])
+        progs.append({"mode": "roll", "text": "\n".join(lines) + "\n", "rows": rows, "df": df, "doubled": doubled, "offset": 0, "ru_once": False})
     b = core.Batch()
     ops = [b.add("scc.read", "0/1", core.enc(p["text"])) for p in progs]
     out = b.run() if chk.driver_ok else None
@@ -72,6 +93,9 @@ def explore(chk):
             got = "".join(ch for c in caps for line in c[2] for ch, _ in line if not ch.isspace())
             if got != sent:
                 chk.property_failure(dict(case, spec=sent, parsed=got), "transmitted characters are not conserved exactly once in transmission order")
+            elif p.get("exact_lines") is not None and ["".join(ch for ch, _ in line).rstrip() for c in caps for line in c[2]] != p["exact_lines"]:
+                chk.property_failure(dict(case, spec=p["exact_lines"], parsed=["".join(ch for ch, _ in line) for c in caps for line in c[2]]),
+                                     "the rows of a paint-on cue do not come back as the lines that were sent (blanks at the start of a row included)")
             else:
                 per_cap = ["".join(ch for line in c[2] for ch, _ in line if not ch.isspace()) for c in caps]
                 for r in p["rows"]:
